@@ -57,15 +57,18 @@ Proof.
       destruct (Cert.lm_dead _ _ _ _); [left; exact Hfail|right; eexists; exact Hfail].
 Qed.
 
-Lemma bw_sparse_nfa_no_panic (V : Type) k (pvs : list (list N * V)) :
+Lemma bw_sparse_nfa_valid (V : Type) k (pvs : list (list N * V)) :
   (forall p v, In (p, v) pvs -> Forall (fun b => b < 256) p) -> 4 * total_len V pvs <= U32_MAX - 1 ->
-  no_panic (bw_build_sparse_nfa V k pvs).
+  spec_build_error (map fst pvs) = None -> okscale (bw_build_sparse_nfa V k pvs).
 Proof.
-  intros Hbytes Hsz. unfold bw_build_sparse_nfa. rewrite add_all_adds.
+  intros Hbytes Hsz Hvalid.
+  assert (Hpne : pvs <> []) by (intros ->; discriminate).
+  assert (Efo0 : first_offence [] (map fst pvs) = None) by (destruct pvs; [congruence|exact Hvalid]).
+  unfold bw_build_sparse_nfa. rewrite add_all_adds.
   pose proof (adds_spec V (fun _ => 1) one_pos one_le4 k pvs Hsz) as S.
-  destruct (first_offence [] (map fst pvs)) as [e|] eqn:Efo; [rewrite S; exact I|].
+  destruct (first_offence [] (map fst pvs)) as [e|] eqn:Efo; [discriminate|].
   destruct S as (n0 & paths & S1 & T0 & Hk & Hlen & Hout). rewrite S1. cbn [bind].
-  destruct (n_len n0 =? 0) eqn:El; [exact I|]. destruct (U24_MAX <? n_len n0) eqn:E24; [exact I|].
+  destruct (n_len n0 =? 0) eqn:El; [exfalso; apply N.eqb_eq in El; rewrite Hlen in El; pose proof (regd_nonempty V k pvs Hpne); destruct (regd V k pvs); [congruence|cbn [length] in El; lia]|]. destruct (U24_MAX <? n_len n0) eqn:E24; [exact I|].
   apply first_offence_none in Efo as (Hne' & Hnd & _).
   destruct (regd_facts k pvs) as (Rin & Rnd & Rlen). pose proof (Rnd Hnd) as Hnd'.
   pose proof (adds_PEF V (fun _ => 1) pvs _ n0 (nfa_new_PEF V k) S1) as HPEF.
@@ -80,13 +83,13 @@ Proof.
   rewrite Hf. exact I.
 Qed.
 
-Theorem bw_build_no_panic (V : Type) k nfb (pvs : list (list N * V)) : nfb <> 0 ->
+Theorem bw_build_valid (V : Type) k nfb (pvs : list (list N * V)) : nfb <> 0 ->
   (forall p v, In (p, v) pvs -> Forall (fun b => b < 256) p) -> 4 * total_len V pvs <= U32_MAX - 1 ->
-  no_panic (bw_build_with_values V k nfb pvs).
+  spec_build_error (map fst pvs) = None -> okscale (bw_build_with_values V k nfb pvs).
 Proof.
-  intros Hnfb Hbytes Hsz. unfold bw_build_with_values. apply N.eqb_neq in Hnfb. rewrite Hnfb. apply N.eqb_neq in Hnfb.
-  pose proof (bw_sparse_nfa_no_panic V k pvs Hbytes Hsz) as Hnp.
-  destruct (bw_build_sparse_nfa V k pvs) as [n2|e| | |] eqn:En; cbn [bind no_panic] in *; try exact I; try contradiction.
+  intros Hnfb Hbytes Hsz Hvalid. unfold bw_build_with_values. apply N.eqb_neq in Hnfb. rewrite Hnfb. apply N.eqb_neq in Hnfb.
+  pose proof (bw_sparse_nfa_valid V k pvs Hbytes Hsz Hvalid) as Hnp.
+  destruct (bw_build_sparse_nfa V k pvs) as [n2|e| | |] eqn:En; cbn [bind okscale] in *; try contradiction; [|exact Hnp].
   - (* the NFA exists: the layout cannot panic *)
     pose proof (bw_sparse_nfa_inv V k pvs n2 Hbytes En) as [HA2 _].
     unfold bw_build_sparse_nfa in En. destruct (add_all V (fun _ => 1) (nfa_new V k) pvs) as [n0| | | |] eqn:Ea; cbn [bind] in En; try discriminate.
@@ -128,6 +131,194 @@ Proof.
         assert (Efl : n_fail st = failof V n2 s).
         { unfold nfa_get in Hg. unfold failof. destruct (s <? n_nstates n2); [|discriminate]. destruct (nget s (n_states n2)); [inversion Hg; reflexivity|discriminate]. }
         rewrite Efl. destruct (Hfail w s Hw) as [Hd|[w' Hw']]; [left; exact Hd|right; apply Hnode; eauto]. }
-    destruct (build_double_array V nfb n2) as [sts|e| | |]; cbn [okscale bind] in *; try contradiction; [|exact I].
+    destruct (build_double_array V nfb n2) as [sts|e| | |]; cbn [okscale bind] in *; try contradiction; [|exact Hlay].
     destruct (U32_MAX <? n_nstates n2 - 1); exact I.
+Qed.
+
+Theorem bw_build_no_panic (V : Type) k nfb (pvs : list (list N * V)) : nfb <> 0 ->
+  (forall p v, In (p, v) pvs -> Forall (fun b => b < 256) p) -> 4 * total_len V pvs <= U32_MAX - 1 ->
+  no_panic (bw_build_with_values V k nfb pvs).
+Proof.
+  intros Hnfb Hbytes Hsz. destruct (spec_build_error (map fst pvs)) as [e|] eqn:Es.
+  - rewrite (bw_build_error_lemma V k nfb pvs e Hnfb Hsz Es). exact I.
+  - apply okscale_no_panic. exact (bw_build_valid V k nfb pvs Hnfb Hbytes Hsz Es).
+Qed.
+
+(* ================================================================================================= *)
+(* the character-wise builder: every character of every pattern has a code *)
+From DV Require Import Proofs.NoPanicCw.
+
+Lemma assign_codes_has : forall sorted i m c, In c (map fst sorted) \/ (exists x, nget c m = Some x) ->
+  exists x, nget c (assign_codes sorted i m) = Some x.
+Proof.
+  induction sorted as [|[c0 f0] r IH]; intros i m c H; cbn [assign_codes map fst] in *.
+  - destruct H as [[]|H]; exact H.
+  - apply IH. destruct H as [[<-|H]|[x Hx]]; [right; exists i; apply ngss|left; exact H|right].
+    destruct (N.eq_dec c c0) as [->|Hne]; [exists i; apply ngss|exists x; rewrite ngso by exact Hne; exact Hx].
+Qed.
+
+Lemma freq_sort_keys l y : In y (map fst (freq_sort l)) <-> In y (map fst l).
+Proof.
+  unfold freq_sort. induction l as [|x l IH]; cbn [fold_right map]; [tauto|].
+  rewrite freq_insert_keys, IH. cbn [In]. split; intros [H|H]; auto.
+Qed.
+
+Lemma freq_insert_length x l : length (freq_insert x l) = S (length l).
+Proof. induction l as [|z r IH]; cbn [freq_insert length]; [reflexivity|]. destruct (freq_before x z); cbn [length]; [reflexivity|]. rewrite IH. reflexivity. Qed.
+Lemma freq_sort_length l : length (freq_sort l) = length l.
+Proof. unfold freq_sort. induction l as [|x l IH]; cbn [fold_right length]; [reflexivity|]. rewrite freq_insert_length, IH. reflexivity. Qed.
+
+Lemma mapper_code_total f present c : In c present -> c < fq_len f -> N.of_nat (length present) < INVALID_CODE ->
+  exists m, code_of (index_list (mp_table (mapper_new f present))) c = Some m.
+Proof.
+  intros Hin Hlt Hsz. unfold code_of. rewrite index_list_get. unfold mapper_new. cbn [mp_table].
+  set (sorted := freq_sort (map (fun c => (c, fq_get f c)) present)). set (tb := assign_codes sorted 0 nempty).
+  rewrite nth_error_map. rewrite nseq_nth_c by lia. cbn [option_map]. replace (0 + N.of_nat (N.to_nat c)) with c by lia.
+  destruct (assign_codes_has sorted 0 nempty c) as [x Hx].
+  { left. unfold sorted. apply freq_sort_keys. rewrite map_map. cbn [fst]. rewrite map_id. exact Hin. }
+  fold tb in Hx. rewrite Hx.
+  assert (x < 0 + N.of_nat (length sorted)).
+  { apply (assign_codes_lt sorted 0 nempty) with (c := c); [|exact Hx]. intros c1 x1 Hg. rewrite nget_empty in Hg. discriminate. }
+  unfold sorted in H. rewrite freq_sort_length, map_length in H.
+  assert ((x =? INVALID_CODE) = false) as -> by (apply N.eqb_neq; lia). eauto.
+Qed.
+
+Lemma sorted_insert_length c l : (length (sorted_insert c l) <= S (length l))%nat.
+Proof.
+  induction l as [|y r IH]; cbn [sorted_insert length]; [lia|]. destruct (c <? y); cbn [length]; [lia|]. destruct (c =? y); cbn [length]; lia.
+Qed.
+
+Lemma fold_sorted_insert_in p : forall l x, In x (fold_left (fun l c => sorted_insert c l) p l) <-> In x p \/ In x l.
+Proof.
+  induction p as [|c p IH]; intros l x; cbn [fold_left In]; [tauto|]. rewrite IH, sorted_insert_in. split; intros [H|H]; auto.
+  - destruct H as [->|H]; auto.
+  - destruct H as [<-|H]; auto.
+Qed.
+
+Lemma fold_sorted_insert_length p : forall l, (length (fold_left (fun l c => sorted_insert c l) p l) <= length l + length p)%nat.
+Proof.
+  induction p as [|c p IH]; intros l; cbn [fold_left length]; [lia|]. specialize (IH (sorted_insert c l)). pose proof (sorted_insert_length c l). lia.
+Qed.
+
+Lemma fold_bump_len p : forall f, fq_len f <= fq_len (fold_left fq_bump p f) /\ forall c, In c p -> c < fq_len (fold_left fq_bump p f).
+Proof.
+  induction p as [|c0 p IH]; intros f; cbn [fold_left]; [split; [lia|intros c []]|].
+  destruct (IH (fq_bump f c0)) as [H1 H2].
+  assert (Hb : fq_len f <= fq_len (fq_bump f c0) /\ c0 < fq_len (fq_bump f c0)).
+  { unfold fq_bump. cbn [fq_len]. destruct (fq_len f <=? c0) eqn:E; [apply N.leb_le in E|apply N.leb_gt in E]; lia. }
+  split; [lia|]. intros c [<-|Hc]; [lia|exact (H2 c Hc)].
+Qed.
+
+Lemma cw_add_all_chars {V} : forall pvs (n : nfa V) f pr n' f' pr',
+  (forall c, In c pr -> c < fq_len f) ->
+  cw_add_all V n f pr pvs = Ok (n', f', pr') ->
+  (forall p v, In (p, v) pvs -> forall c, In c p -> In c pr') /\ (forall c, In c pr -> In c pr') /\ (forall c, In c pr' -> c < fq_len f')
+  /\ (N.of_nat (length pr') <= N.of_nat (length pr) + total_len V pvs).
+Proof.
+  induction pvs as [|[p v] r IH]; intros n f pr n' f' pr' Hlt H; cbn [cw_add_all] in H.
+  - inversion H; subst. split; [intros p v []|]. split; [auto|]. split; [exact Hlt|]. unfold total_len. cbn. lia.
+  - destruct (add V len_utf8 n p v) as [n1| | | |]; cbn [bind] in H; try discriminate.
+    destruct (fold_bump_len p f) as [B1 B2].
+    destruct (IH n1 _ _ n' f' pr' ltac:(intros c Hc; apply fold_sorted_insert_in in Hc as [Hc|Hc]; [exact (B2 c Hc)|pose proof (Hlt c Hc); lia]) H) as (I1 & I2 & I3 & I4).
+    split; [|split; [|split]].
+    + intros q w [E|Hin] c Hc; [inversion E; subst; apply I2; apply fold_sorted_insert_in; left; exact Hc|exact (I1 q w Hin c Hc)].
+    + intros c Hc. apply I2. apply fold_sorted_insert_in. right. exact Hc.
+    + exact I3.
+    + pose proof (fold_sorted_insert_length p pr). unfold total_len in *. cbn [fold_right fst]. lia.
+Qed.
+
+Theorem cw_build_valid (V : Type) k nfb (pvs : list (list N * V)) : nfb <> 0 ->
+  4 * total_len V pvs <= U32_MAX - 1 -> spec_build_error (map fst pvs) = None -> okscale (cw_build_with_values V k nfb pvs).
+Proof.
+  intros Hnfb Hsz Hvalid.
+  assert (Hpne : pvs <> []) by (intros ->; discriminate).
+  assert (Efo0 : first_offence [] (map fst pvs) = None) by (destruct pvs; [congruence|exact Hvalid]).
+  unfold cw_build_with_values. apply N.eqb_neq in Hnfb. rewrite Hnfb. apply N.eqb_neq in Hnfb.
+  pose proof (cw_add_all_adds V pvs (nfa_new V k) {| fq_map := nempty; fq_len := 0 |} []) as Hadds.
+  pose proof (adds_spec V len_utf8 len_utf8_pos len_utf8_le4 k pvs Hsz) as S.
+  rewrite Efo0 in S.
+  destruct (cw_add_all V (nfa_new V k) _ [] pvs) as [[[n0 f] pr]|e| | |] eqn:Ea; cbn [bind okscale];
+    try (destruct S as (? & ? & S1 & _); rewrite Hadds in S1; discriminate).
+  assert (Efo : first_offence [] (map fst pvs) = None) by exact Efo0.
+  destruct S as (n0' & paths & S1 & T0 & Hk & Hlen & Hout). rewrite Hadds in S1. inversion S1; subst n0'; clear S1.
+  destruct (n_len n0 =? 0) eqn:El; [exfalso; apply N.eqb_eq in El; rewrite Hlen in El; pose proof (regd_nonempty V k pvs Hpne); destruct (regd V k pvs); [congruence|cbn [length] in El; lia]|].
+  apply first_offence_none in Efo as (Hne' & Hnd & _).
+  destruct (regd_facts k pvs) as (Rin & Rnd & Rlen). pose proof (Rnd Hnd) as Hnd'.
+  pose proof (adds_PEF V len_utf8 pvs _ n0 (nfa_new_PEF V k) Hadds) as HPEF.
+  assert (EK0 : forall i st, nget i (n_states n0) = Some st -> NoDup (map fst (n_edges st))) by (intros i st Hg; exact (proj2 (HPEF i st Hg))).
+  assert (F0 : forall i st, nget i (n_states n0) = Some st -> n_fail st = ROOT) by (intros i st Hg; exact (proj1 (HPEF i st Hg))).
+  destruct (cw_add_all_inv V pvs _ _ _ _ _ _ (nfa_new_PLO_any V k) eq_refl Ea) as [HPLO _].
+  assert (OP0 : forall i st, nget i (n_states n0) = Some st -> n_outpos st = 0) by (intros i st Hg; exact (proj1 (HPLO i st Hg))).
+  assert (NE0 : regd V k pvs <> []) by (intros E0; rewrite E0 in Hlen; cbn in Hlen; rewrite Hlen in El; discriminate).
+  assert (Hne : forall p v, In (p, v) pvs -> p <> []).
+  { intros p v Hin. rewrite Forall_forall in Hne'. apply Hne'. apply in_map_iff. exists (p, v). auto. }
+  assert (LEN0 : N.of_nat (length (regd V k pvs)) < U32_MAX) by (pose proof (count_le_total_len pvs Hne); unfold U32_MAX in *; lia).
+  destruct (finish_nfa_any V len_utf8 len_utf8_pos k n0 _ paths T0 EK0 F0 Hnd' LEN0 OP0 Hout NE0 Hk)
+    as (n2 & Hf & Hns & Htc & Hst & Hfail).
+  rewrite Hf. cbn [bind].
+  assert (Hnode : forall t, node V n2 t <-> exists w, N0 V n0 w t) by (apply node2_iff; exact Htc).
+  assert (Hnd2 : forall w s, N0 V n0 w s -> s <> DEAD).
+  { intros w s Hw ->. destruct (ti_bwd _ _ _ _ _ _ T0 _ _ Hw) as [[_ E]|[H2 _]]; [discriminate|unfold DEAD in H2; lia]. }
+  set (mp := mapper_new f pr) in *.
+  destruct (block_len_pow2 (mp_alpha mp)) as [kk [Hbk Hk1]].
+  destruct (cw_add_all_chars pvs (nfa_new V k) {| fq_map := nempty; fq_len := 0 |} [] n0 f pr (fun c (H : In c []) => match H with end) Ea) as (Hchars & _ & Hprlt & Hprlen).
+  assert (Hprs : StronglySorted N.lt pr) by (apply (cw_add_all_present pvs _ _ _ _ _ _ (SSorted_nil _) Ea)).
+  assert (Halpha : mp_alpha mp < 2 ^ 30).
+  { unfold mp, mapper_new. cbn [mp_alpha]. rewrite freq_sort_length, map_length. cbn [length] in Hprlen. unfold U32_MAX in Hsz. lia. }
+  assert (Hlay : okscale (r0 <- cw_init_array (mp_alpha mp) nfb ;;
+           let '(a0, h0, block_len) := r0 in
+           r1 <- cw_dfs_loop V (S (N.to_nat (n_nstates n2))) (index_list (mp_table mp)) block_len n2 a0 h0 (nset ROOT ROOT nempty) [ROOT] ;;
+           let '(a1, h1, idmap) := r1 in
+           cw_set_fails_loop V n2 a1 idmap (nseq 0 (N.to_nat (n_nstates n2))))).
+  { destruct (N.le_gt_cases (block_len_of (mp_alpha mp)) U32_MAX) as [Hbu|Hbig].
+    2:{ unfold cw_init_array, helper_new. fold (block_len_of (mp_alpha mp)).
+        assert ((U32_MAX <? block_len_of (mp_alpha mp) * nfb) = true) as -> by (apply N.ltb_lt; nia). exact I. }
+    apply (cw_layout_total kk Hk1 V n2 (index_list (mp_table mp))); [| | | | | | | | | | | | |exact Hbk|lia].
+    - eapply tf_wf; eassumption.
+    - eapply tf_edges_child; try eassumption; exact len_utf8_pos.
+    - eapply tf_child_node; try eassumption; exact len_utf8_pos.
+    - eapply tf_uniq_parent; try eassumption; exact len_utf8_pos.
+    - eapply tf_node_lt; try eassumption; exact len_utf8_pos.
+    - eapply tf_edges_nodup; try eassumption; exact len_utf8_pos.
+    - intros c m Hc. apply (code_of_lt (mp_table mp) (mp_alpha mp)) in Hc; [|intros x Hx; exact (mapper_new_codes f pr x Hx)].
+      pose proof (block_len_ge (mp_alpha mp) Hbu) as Hge. rewrite Hbk in Hge. lia.
+    - exact (mapper_code_inj f pr Hprs).
+    - (* every edge label has a code *)
+      intros s c t Ns Hin. apply (mapper_code_total f pr c).
+      + apply Hnode in Ns as [w Hw].
+        assert (Hc : tchild V n2 s c = Some t) by (eapply tf_edges_child; try eassumption; [exact len_utf8_pos|apply Hnode; eauto]).
+        rewrite Htc in Hc. assert (Ht : N0 V n0 (w ++ [c]) t) by (apply (N0_snoc V n0); eauto).
+        destruct (ti_bwd _ _ _ _ _ _ T0 _ _ Ht) as [[E _]|[_ Hp]]; [apply app_eq_nil in E as [_ E]; discriminate|].
+        apply nth_error_In in Hp. apply (ti_mem _ _ _ _ _ _ T0) in Hp as [_ [[r Hr]|(q & v & Hq & [r Hr])]].
+        * symmetry in Hr. apply app_eq_nil in Hr as [Hr _]. apply app_eq_nil in Hr as [_ Hr]. discriminate.
+        * apply (Hchars q v (Rin _ Hq)). rewrite Hr. apply in_or_app. left. apply in_or_app. right. left. reflexivity.
+      + apply Hprlt.
+        apply Hnode in Ns as [w Hw].
+        assert (Hc : tchild V n2 s c = Some t) by (eapply tf_edges_child; try eassumption; [exact len_utf8_pos|apply Hnode; eauto]).
+        rewrite Htc in Hc. assert (Ht : N0 V n0 (w ++ [c]) t) by (apply (N0_snoc V n0); eauto).
+        destruct (ti_bwd _ _ _ _ _ _ T0 _ _ Ht) as [[E _]|[_ Hp]]; [apply app_eq_nil in E as [_ E]; discriminate|].
+        apply nth_error_In in Hp. apply (ti_mem _ _ _ _ _ _ T0) in Hp as [_ [[r Hr]|(q & v & Hq & [r Hr])]].
+        * symmetry in Hr. apply app_eq_nil in Hr as [Hr _]. apply app_eq_nil in Hr as [_ Hr]. discriminate.
+        * apply (Hchars q v (Rin _ Hq)). rewrite Hr. apply in_or_app. left. apply in_or_app. right. left. reflexivity.
+      + cbn [length] in Hprlen. unfold INVALID_CODE. unfold U32_MAX in Hsz. lia.
+    - apply Hnode. exists []. reflexivity.
+    - eapply tf_nstates_nodes; try eassumption; exact len_utf8_pos.
+    - intros Hd. apply Hnode in Hd as [w Hw]. exact (Hnd2 w DEAD Hw eq_refl).
+    - intros s st Ns Hg. apply Hnode in Ns as [w Hw].
+      assert (Efl : n_fail st = failof V n2 s).
+      { unfold nfa_get in Hg. unfold failof. destruct (s <? n_nstates n2); [|discriminate]. destruct (nget s (n_states n2)); [inversion Hg; reflexivity|discriminate]. }
+      rewrite Efl. destruct (Hfail w s Hw) as [Hd|[w' Hw']]; [left; exact Hd|right; apply Hnode; eauto]. }
+  fold mp.
+  destruct (cw_init_array (mp_alpha mp) nfb) as [[[a0 h0] b]|e| | |]; cbn [okscale bind] in *; try contradiction; [|exact Hlay].
+  destruct (cw_dfs_loop V _ _ b n2 a0 h0 _ _) as [[[a1 h1] idmap]|e| | |]; cbn [okscale bind] in *; try contradiction; [|exact Hlay].
+  destruct (cw_set_fails_loop V n2 a1 idmap _) as [a2|e| | |]; cbn [okscale bind] in *; try contradiction; [|exact Hlay].
+  destruct (U32_MAX <? n_nstates n2 - 1); exact I.
+Qed.
+
+Theorem cw_build_no_panic (V : Type) k nfb (pvs : list (list N * V)) : nfb <> 0 ->
+  4 * total_len V pvs <= U32_MAX - 1 -> no_panic (cw_build_with_values V k nfb pvs).
+Proof.
+  intros Hnfb Hsz. destruct (spec_build_error (map fst pvs)) as [e|] eqn:Es.
+  - rewrite (cw_build_error_lemma V k nfb pvs e Hnfb Hsz Es). exact I.
+  - apply okscale_no_panic. exact (cw_build_valid V k nfb pvs Hnfb Hsz Es).
 Qed.
